@@ -58,6 +58,42 @@ func ruleLengthFieldWidths(c *eng.Ctx) {
 		})
 		return k, pos, found
 	}
+	// the bound may sit in a helper of the same encoder that the writer hands its slice to (PutBytes reusing PutRawBytes)
+	direct := bound
+	bound = func(ref string) (int64, string, bool) {
+		if k, pos, ok := direct(ref); ok {
+			return k, pos, ok
+		}
+		fn := c.FnQuiet(ref)
+		if fn == nil {
+			return 0, "", false
+		}
+		var k int64
+		pos, found := "", false
+		eng.Instrs(fn, func(in ssa.Instruction) {
+			call, isCall := in.(*ssa.Call)
+			if !isCall || found {
+				return
+			}
+			callee := call.Call.StaticCallee()
+			if callee == nil || !p.IsModuleFunc(callee) {
+				return
+			}
+			passes := false
+			for _, a := range call.Call.Args {
+				if _, isParam := eng.Strip(a).(*ssa.Parameter); isParam {
+					passes = true
+				}
+			}
+			if !passes {
+				return
+			}
+			if kk, pp, ok := direct(ir.FuncKey(callee)); ok {
+				k, pos, found = kk, pp, true
+			}
+		})
+		return k, pos, found
+	}
 	type width struct {
 		name   string
 		writer string
